@@ -15,13 +15,63 @@ def err_name(e):
     return n if n in ("ValueError", "TypeError", "IndexError", "RuntimeError", "ZeroDivisionError") else "Other:" + n
 
 
-def samples_of(n, logl=None):
-    a = np.zeros(n, dtype=[("x", "f8"), ("y", "f8"), ("logL", "f8"), ("logP", "f8")])
-    a["x"] = np.arange(n, dtype=float)          # the sample id
-    a["y"] = 0.5
+_DTYPES = {}
+
+
+def sample_dtype(fields):
+    """dtype of nessai samples built by nessai itself: parameters x, y + the non-sampling parameters (logP, logL, it)
+    and, for fields == "ins", the extra parameters an importance sampler registers (logW, logQ, logU)."""
+    if not _DTYPES:
+        from nessai.livepoint import (add_extra_parameters_to_live_points, get_dtype,
+                                      reset_extra_live_points_parameters)
+        reset_extra_live_points_parameters()
+        _DTYPES["std"] = np.dtype(get_dtype(["x", "y"]))
+        add_extra_parameters_to_live_points(["logW", "logQ", "logU"])
+        _DTYPES["ins"] = np.dtype(get_dtype(["x", "y"]))
+        reset_extra_live_points_parameters()
+    return _DTYPES[fields]
+
+
+def samples_of(n, logl=None, fields="std"):
+    """every field carries non-zero values that differ from row to row: field k of row i = (i + 1) * (k + 2);
+    x is the sample id i; logL may be given"""
+    a = np.zeros(n, dtype=sample_dtype(fields))
+    for k, f in enumerate(a.dtype.names):
+        a[f] = (np.arange(n) + 1) * (k + 2)
+    a["x"] = np.arange(n, dtype=float)
     if logl is not None:
         a["logL"] = logl
     return a
+
+
+def row_codes(a, skip=()):
+    """integer checksum of each record over all fields except `skip` (the generated values are integers)"""
+    tot = np.zeros(len(a), dtype=np.int64)
+    for f in a.dtype.names:
+        if f not in skip:
+            tot = tot + np.asarray(a[f], dtype=np.int64)
+    return [int(v) for v in tot]
+
+
+class Guard:
+    """bit-exact snapshot of the input arrays of a call; .changed() names those that differ afterwards"""
+
+    def __init__(self, **arrays):
+        self.arrays = arrays
+        self.before = {k: (v.dtype, v.shape, v.tobytes()) for k, v in arrays.items()}
+
+    def changed(self):
+        return sorted(k for k, v in self.arrays.items() if (v.dtype, v.shape, v.tobytes()) != self.before[k])
+
+
+def same_records(post, pristine, idx):
+    """field-by-field, bit-exact: post == pristine[idx]; returns the fields that differ (or ['<dtype>'])"""
+    if post.dtype != pristine.dtype:
+        return ["<dtype>"]
+    want = pristine[np.asarray(idx, dtype=int)]
+    if post.shape != want.shape:
+        return ["<shape>"]
+    return [f for f in pristine.dtype.names if post[f].tobytes() != want[f].tobytes()]
 
 
 class Scripted:
@@ -96,6 +146,44 @@ def ess_state_case(c):
             "ess_fn": float(effective_sample_size(w1.copy())), "cls": type(st).__name__}
 
 
+def do_ess(c, lw):
+    from nessai.utils.stats import effective_sample_size
+    g = Guard(log_w=lw)
+    out = {"ess": float(effective_sample_size(lw))}
+    if c.get("as_list"):
+        out["ess_list"] = float(effective_sample_size([float(v) for v in lw]))
+    out["inputs_changed"] = g.changed()
+    return out
+
+
+def do_rej(c, ns, lw):
+    from nessai.posterior import draw_posterior_samples
+    pristine = ns.copy()
+    g = Guard(nested_samples=ns, log_w=lw)
+    with Scripted(us=c["us"]) as sc:
+        post, idx = draw_posterior_samples(ns, log_w=lw, method="rejection_sampling", return_indices=True, n=c.get("n"))
+        post_only = draw_posterior_samples(ns, log_w=lw, method="rejection_sampling")
+    return {"idx": [int(i) for i in idx], "ids": [int(v) for v in post["x"]], "codes": row_codes(post),
+            "ids_noidx": [int(v) for v in post_only["x"]], "rand_calls": sc.rand_calls,
+            "fields_bad": same_records(post, pristine, idx), "fields_bad_noidx": same_records(post_only, pristine, idx),
+            "n_fields": len(ns.dtype.names), "inputs_changed": g.changed()}
+
+
+def do_mult(c, ns, lw):
+    from nessai.posterior import draw_posterior_samples
+    from nessai.utils.stats import effective_sample_size
+    pristine = ns.copy()
+    ess = float(effective_sample_size(lw.copy()))
+    g = Guard(nested_samples=ns, log_w=lw)
+    with Scripted(choice_idx=c["choice_idx"]) as sc:
+        post, idx = draw_posterior_samples(ns, log_w=lw, method=c.get("method", "multinomial_resampling"),
+                                           n=c.get("n"), return_indices=True)
+    call = sc.choice_calls[0] if sc.choice_calls else None
+    return {"idx": [int(i) for i in idx], "ids": [int(v) for v in post["x"]], "codes": row_codes(post), "call": call,
+            "n_calls": len(sc.choice_calls), "ess": ess, "fields_bad": same_records(post, pristine, idx),
+            "n_fields": len(ns.dtype.names), "inputs_changed": g.changed()}
+
+
 def run_case(c):
     from nessai.posterior import compute_weights, draw_posterior_samples
     from nessai.utils.stats import effective_sample_size
@@ -104,10 +192,7 @@ def run_case(c):
     lw = np.array([float(v) for v in c.get("lw", [])], dtype=float)
     try:
         if kind == "ess":
-            out = {"ess": float(effective_sample_size(lw.copy()))}
-            if c.get("as_list"):
-                out["ess_list"] = float(effective_sample_size([float(v) for v in lw]))
-            return out
+            return do_ess(c, lw)
         if kind == "ess_state":
             return ess_state_case(c)
         if kind == "state_classes":
@@ -124,45 +209,55 @@ def run_case(c):
             st = _NSIntegralState(5, track_gradients=False)
             return {"ess": float(st.effective_n_posterior_samples)}
         if kind == "rej":
-            ns = samples_of(len(lw))
-            with Scripted(us=c["us"]) as sc:
-                post, idx = draw_posterior_samples(ns, log_w=lw.copy(), method="rejection_sampling", return_indices=True,
-                                                   n=c.get("n"))
-                post_only = draw_posterior_samples(ns, log_w=lw.copy(), method="rejection_sampling")
-            return {"idx": [int(i) for i in idx], "ids": [int(v) for v in post["x"]],
-                    "ids_noidx": [int(v) for v in post_only["x"]], "rand_calls": sc.rand_calls,
-                    "dtype_ok": post.dtype == ns.dtype, "lw_unchanged": True}
+            return do_rej(c, samples_of(len(lw), fields=c.get("fields", "std")), lw)
         if kind == "mult":
-            ns = samples_of(len(lw))
-            with Scripted(choice_idx=c["choice_idx"]) as sc:
-                post, idx = draw_posterior_samples(ns, log_w=lw.copy(), method=c.get("method", "multinomial_resampling"),
-                                                   n=c.get("n"), return_indices=True)
-            call = sc.choice_calls[0] if sc.choice_calls else None
-            return {"idx": [int(i) for i in idx], "ids": [int(v) for v in post["x"]], "call": call,
-                    "n_calls": len(sc.choice_calls), "ess": float(effective_sample_size(lw.copy()))}
+            return do_mult(c, samples_of(len(lw), fields=c.get("fields", "std")), lw)
+        if kind == "seq":
+            # several calls on the SAME sample and weight arrays, as a caller would make them
+            ns = samples_of(len(lw), fields=c.get("fields", "std"))
+            ops = []
+            for op in c["ops"]:
+                try:
+                    if op == "rej":
+                        ops.append(do_rej(c, ns, lw))
+                    elif op == "mult":
+                        ops.append(do_mult(c, ns, lw))
+                    elif op == "ess":
+                        ops.append(do_ess(c, lw))
+                    else:
+                        raise SystemExit("unknown op " + op)
+                except Exception as e:
+                    ops.append({"error": err_name(e), "msg": str(e)[:300]})
+            return {"ops": ops}
         if kind == "nlive":
             # log_w=None: the weights come from compute_weights(nested_samples["logL"], nlive)
             ls = np.array([float(v) for v in c["ls"]])
-            ns = samples_of(len(ls), ls)
+            ns = samples_of(len(ls), ls, fields=c.get("fields", "std"))
+            pristine = ns.copy()
+            g = Guard(nested_samples=ns)
             with Scripted(us=c["us"]):
                 post, idx = draw_posterior_samples(ns, nlive=int(c["nlive"]), method="rejection_sampling",
                                                    return_indices=True, expectation=c.get("mode", "logt"))
+            changed = g.changed()
             _, w = compute_weights(ls, int(c["nlive"]), expectation=c.get("mode", "logt"))
             with Scripted(us=c["us"]):
                 post2, idx2 = draw_posterior_samples(ns, log_w=w, method="rejection_sampling", return_indices=True)
             return {"idx": [int(i) for i in idx], "ids": [int(v) for v in post["x"]], "idx_explicit": [int(i) for i in idx2],
-                    "w": [float(v) for v in w]}
+                    "w": [float(v) for v in w], "fields_bad": same_records(post, pristine, idx),
+                    "codes": row_codes(post, skip=("logL",)), "n_fields": len(ns.dtype.names), "inputs_changed": changed}
         if kind == "freq":
             # numpy's real generators: how often is each sample selected?
             ns = samples_of(len(lw))
             np.random.seed(int(c["seed"]))
             counts = np.zeros(len(lw), dtype=int)
             lens = []
-            for _ in range(int(c["reps"])):
-                post, idx = draw_posterior_samples(ns, log_w=lw.copy(), method=c["method"], n=c.get("n"), return_indices=True)
+            g = Guard(nested_samples=ns, log_w=lw)
+            for _ in range(int(c["reps"])):       # repeated draws from the SAME arrays
+                post, idx = draw_posterior_samples(ns, log_w=lw, method=c["method"], n=c.get("n"), return_indices=True)
                 np.add.at(counts, idx, 1)
                 lens.append(len(idx))
-            return {"counts": [int(v) for v in counts], "lens_min": int(min(lens)), "lens_max": int(max(lens))}
+            return {"counts": [int(v) for v in counts], "lens_min": int(min(lens)), "lens_max": int(max(lens)),
+                    "inputs_changed": g.changed()}
         if kind == "malformed":
             ns = samples_of(len(lw))
             with Scripted(us=c.get("us"), choice_idx=[0]):
